@@ -28,8 +28,11 @@ CLAIMED = {
         note="caller contract as documented (fed bytes fit the input buffer; dest only with an empty stream buffer); sizes < 2^62; progress for dest = Some c is stated for dest = None only (a full caller buffer legitimately stops the call)."),
     "C08": dict(
         text="Proof on the connection model (Async/Conn.v; gated client segments = a peer that withholds further records until it has seen the "
-             "replies it waits for; PBlock = Pending without wake-up), C08_only_waits_for_client - the task never panics or spins and is "
-             "suspended without a pending wake-up only in a transport read that a gated client does not satisfy; at EVERY such suspension point the "
+             "replies it waits for; PBlock = Pending without wake-up), C08_never_panics_or_spins - for every well-formed handler script list the task "
+             "either returns or is suspended without a pending wake-up; C08_only_waits_for_client - on a fault-free write side and with handlers "
+             "that await the reads they start, such a suspension happens only in a transport read that a gated client does not satisfy "
+             "(with a dropped read the handler can also wait on the request's own output lock: known finding F6, "
+             "C08_abandoned_read_counterexample, confirmed against the real crate, KNOWN-FINDING line); at EVERY such suspension point the "
              "accounting is proved: inside a handler read (C08_poll_input_block / C08_await_input_deadlock) the parser's output buffer is empty, "
              "everything produced is in the transport's log, NOTHING is owed for bytes already received (R .. [] = []), the replies still owed "
              "are exactly those of bytes the client has not delivered, and no stream data is withheld; between requests "
@@ -51,7 +54,7 @@ CLAIMED = {
              "requests and in the same read as a request's end, on an executor that re-polls only on wake. Defects F1 and F2 found here are "
              "repaired in /repo (1a75639, fd29a7b); their replays are in corpus/C08 and run first.",
         design="6/C08, 13.3", technique="Coq proof (totality + reply accounting at every suspension point of the connection model) + differential execution with closed-loop gated clients on a wake-only executor",
-        note="two whole-connection theorems: peers gating on management replies only (pipelining allowed), and the strict one-outstanding client gating on EndRequest and management replies (no stray BeginRequest/AbortRequest records); other mixtures are by correspondence; the property's 'once the running handler reads input or returns' is reflected by handlers always progressing in the model; executor/waker protocol modelled by contract."),
+        note="KNOWN FINDING F6 (not repaired): a read polled once and dropped while a reply is partly flushed, then a StreamWriter operation: self-deadlock; the whole-connection theorems therefore assume handlers that await their reads (no_abandoned_read). Two whole-connection theorems: peers gating on management replies only (pipelining allowed), and the strict one-outstanding client gating on EndRequest and management replies (no stray BeginRequest/AbortRequest records); other mixtures are by correspondence; the property's 'once the running handler reads input or returns' is reflected by handlers always progressing in the model; executor/waker protocol modelled by contract."),
     "C09": dict(
         text="Proof on the connection model: C09_poll_input / C09_await_input - for ONE poll or awaited read with any caller buffer (read into c bytes, "
              "fill_buf), any transport read/write behaviour and pending parser output: with dl the bytes handed over, K(before)(remaining) = dl "
@@ -214,7 +217,11 @@ CLAIMED = {
              "boundary without writing, exactly the pending management replies, the empty Stdout and Stderr records and one EndRequest with the "
              "exit status' protocol/application status and the request id; C07_reuse / C07_close_cases - the connection is handed back IF AND "
              "ONLY IF the request carried KeepConn and every write succeeded; otherwise ConnectionReset after the complete epilogue, or the "
-             "write error after a proper prefix; a read error while skipping writes nothing. C07_one_handler_call_per_request - one iteration of Token::run in the model: one parse_request, ONE handler run on "
+             "write error after a proper prefix; a read error while skipping writes nothing. C07_requests_in_order - over a WHOLE connection of the one-outstanding client (one complete request per segment, released after "
+             "the previous EndRequest; requests within the buffer bound; any handlers, any readiness pattern; no write faults) the requests the "
+             "handler is started with are exactly the requests sent - id, role, flags, environment - in order, each once, none invented "
+             "(ghost trace of Token::run, C07_trace_is_ghost: erasing it gives the loop); "
+             "C07_one_handler_call_per_request - one iteration of Token::run in the model: one parse_request, ONE handler run on "
              "its result, ONE close when the handler returned a status, continuation only with the parser a successful close handed back; "
              "that Conn.run_loop has the shape of the real Token::run is tied to the code "
              "by the correspondence check (handler events, transport log, bytes consumed, poll count on every generated connection) + an "
@@ -239,11 +246,17 @@ CLAIMED = {
         design="6/C10", technique="Coq proof (write loops: exact bytes for every transport split; inductive lock-tenure invariant over all poll orders) + differential execution of scripted multi-writer poll orders with record-decoding oracle",
         note="futures-util Mutex modelled as an owner field taken by whoever polls first while free (no hand-off, no fairness claimed); writers are created before the schedule starts."),
     "C12": dict(
-        text="Proof on the connection model (Async/Conn.v): C12_terminates - for EVERY read script and write script (read errors, write errors of two "
-             "kinds, zero-length writes, spurious not-ready results at any call index), every client byte string cut off at any offset, every "
-             "buffer size and every list of well-formed handler scripts the task returns: no Rust panic site and no loop bound of the model is "
-             "reachable (C12_total for gated clients: the only other outcome is waiting for a client that waits; C12_total_lax: rejected "
-             "set_stream in a handler is the handler's own documented panic); C12_no_handler_for_partial_preamble - if everything the client will "
+        text="Proof on the connection model (Async/Conn.v), with one clause REFUTED (known finding F5): C12_never_panics_or_spins - for EVERY read "
+             "script and write script (read errors, write errors of two kinds, zero-length writes, spurious not-ready results at any call "
+             "index), every client byte string cut off at any offset, every buffer size and every list of well-formed handler scripts the "
+             "outcome is 'returned' or 'suspended without a pending wake-up': no Rust panic site and no loop bound of the model is reachable; "
+             "the task TERMINATES (returns) for clients that do not wait for it when the transport's write side is fault-free and the "
+             "handlers await the reads they start (C12_terminates_fault_free_awaiting_handlers), or - under ANY write faults - when the "
+             "handlers propagate I/O errors (C12_terminates_propagating_handlers); the unrestricted termination claim is refuted: "
+             "C12_terminates_unrestricted_refuted exhibits a world (F5) in which a handler that does not propagate the error of a failed reply "
+             "flush and then writes hangs for ever on the request's own output lock - confirmed against the real crate by the check (class "
+             "swallowed-flush-error-then-write, KNOWN-FINDING line); "
+             "C12_no_handler_for_partial_preamble - if everything the client will "
              "ever deliver (leftover included) is a proper prefix of a well-formed preamble, parse_request never hands over to a handler, "
              "whatever the read/write patterns; C12_parse_request_eof - EOF between requests ends the connection quietly, reads happen only "
              "after the replies were written; C12_empty_read_means_end_of_stream / C12_poll_input_cases - a handler read returns Ok(0) into a "
@@ -256,7 +269,7 @@ CLAIMED = {
              "/repo b370518; replay corpus/C12). Also: EOF at every "
              "byte offset of short connections, a read error at every read index.",
         design="6/C12, 13.3", technique="Coq proof (totality of the connection model under all fault scripts; parse_request composed with the request-parser theorems; read/write accounting) + exhaustive fault-position enumeration per scripted connection through model and crate",
-        note="for the ConnectionAborted-kind write error the nothing-written-after clause is by correspondence + oracle (judged on runs in which the handler swallowed no error); after a real client abort, a reply flush that fails with that very kind during close is still taken for the abort (outside C12's traffic; DESIGN 13.3); single task."),
+        note="KNOWN FINDING F5 (not repaired): hang after a swallowed failed reply flush followed by a StreamWriter operation; for the ConnectionAborted-kind write error the nothing-written-after clause is by correspondence + oracle (judged on runs in which the handler swallowed no error); after a real client abort, a reply flush that fails with that very kind during close is still taken for the abort (outside C12's traffic; DESIGN 13.3); single task."),
     "C13": dict(
         text="Proof on the token model (Async/Tokens.v: permit counter + event-listener queue with notify(1) being a no-op while a listener is already "
              "notified, notified listeners passing the notification on when dropped, the acquire future trying the counter first - all modelled from "
